@@ -176,7 +176,7 @@ func smokeChild(planPath string) {
 		target = test
 	}
 	up := false
-	for i := 0; i < 100 && !up; i++ {
+	for i := 0; i < 400 && !up; i++ {
 		select {
 		case ok := <-done:
 			res.Log = logbuf.String()
@@ -185,9 +185,17 @@ func smokeChild(planPath string) {
 			return
 		default:
 		}
-		c, err := net.DialTimeout("tcp", target, 200*time.Millisecond)
-		if err == nil {
+		// services are started one after the other: both servers must answer
+		ok := true
+		for _, a := range []string{target, test} {
+			c, err := net.DialTimeout("tcp", a, 200*time.Millisecond)
+			if err != nil {
+				ok = false
+				break
+			}
 			c.Close()
+		}
+		if ok {
 			up = true
 		} else {
 			time.Sleep(20 * time.Millisecond)
